@@ -10,6 +10,7 @@ package ratelimit
 import (
 	"context"
 	"errors"
+	"io"
 	"net"
 	"time"
 
@@ -45,7 +46,22 @@ func vfStubWaitN(l *rate.Limiter, ctx context.Context, n int) error {
 	return nil
 }
 
-func vfStubCombine(a, b net.Conn, cfg connfu.Config) net.Conn { return a }
+// vfStubCombine stands for connfu.CombineWithConfig: the outer connection, plus the inner connection's fast paths
+// when (and only when) the configuration asks for them.
+type vfWithFastPaths struct {
+	net.Conn
+	inner net.Conn
+}
+
+func (c vfWithFastPaths) ReadFrom(r io.Reader) (int64, error) { return c.inner.(io.ReaderFrom).ReadFrom(r) }
+func (c vfWithFastPaths) WriteTo(w io.Writer) (int64, error)  { return c.inner.(io.WriterTo).WriteTo(w) }
+
+func vfStubCombine(a, b net.Conn, cfg connfu.Config) net.Conn {
+	if cfg.UseReaderFrom || cfg.UseWriterTo {
+		return vfWithFastPaths{a, b}
+	}
+	return a
+}
 
 //vf:override golang.org/x/time/rate.NewLimiter = vfStubNewLimiter
 //vf:override (*golang.org/x/time/rate.Limiter).WaitN = vfStubWaitN
@@ -77,7 +93,9 @@ func (c *vfRLConn) Write(p []byte) (int, error) {
 	}
 	return n, nil
 }
-func (c *vfRLConn) Close() error                       { return nil }
+func (c *vfRLConn) ReadFrom(r io.Reader) (int64, error) { return 0, nil } // like *net.TCPConn
+func (c *vfRLConn) WriteTo(w io.Writer) (int64, error)  { return 0, nil }
+func (c *vfRLConn) Close() error                        { return nil }
 func (c *vfRLConn) LocalAddr() net.Addr                { return nil }
 func (c *vfRLConn) RemoteAddr() net.Addr               { return nil }
 func (c *vfRLConn) SetDeadline(t time.Time) error      { return nil }
@@ -123,6 +141,11 @@ func vfH_C20_glue() {
 	a1, err := l.Accept()
 	vfrt.Assert(err == nil && a1 != nil, "glue/accept")
 	a2, _ := l.Accept()
+	// the fast paths of the socket (ReadFrom / WriteTo, which io.Copy prefers) would move bytes past the limiters:
+	// an accepted connection must not expose them
+	_, hasReadFrom := a1.(io.ReaderFrom)
+	_, hasWriteTo := a1.(io.WriterTo)
+	vfrt.Assert(!hasReadFrom && !hasWriteTo, "glue/socket-fast-paths-that-bypass-the-limiters-are-hidden")
 	// The checks below look only at what the listener does (which limiter each transfer is charged to), not at how
 	// it stores its limiters. Transfers: data, n and err pass through unchanged; each byte count is charged once,
 	// after the transfer, to the limiter of its own direction.
